@@ -12,6 +12,7 @@ import json
 import os
 import re
 import shutil
+import resource
 import subprocess
 from concurrent.futures import ThreadPoolExecutor
 
@@ -190,6 +191,7 @@ MALFORMED = ["#include", "#include ", "#include B C", "#includeB", " #include B"
              "#include\rB", "#include B\r", "x #include B", "#include\t\tB\tz", "#includeB C"]
 NAMES = "ABCDEFGHIJKL"
 LINEBUF = [2048]        # the reader's buffer size, set by run() from the constants regenerated from /repo
+NOFILE_DEFAULT = 40     # RLIMIT_NOFILE of every `-Q` observation (deepest generated include chain: 12 files)
 
 
 def long_line(rng, target, fill=None, comment=None, linebuf=2048):
@@ -475,6 +477,76 @@ def gen_case(rng, stream, casedir):
             "stdin": stdin, "env": env, "casedir": casedir, "nfiles": len(names), "alt_spelling": alt}
 
 
+def gen_wide(rng, casedir, limit):
+    """MANY skipped duplicate includes — more than the descriptor limit the case runs under: K files that all include
+    one common file (a wide diamond), or one two-file cycle entered K times, or a file including itself K times;
+    the list the specification says is short (most of the K files hold no host of their own)"""
+    k = limit + rng.randrange(4, 24)
+    d = rng.choice(["site", "t/u", "w"])
+    shape = rng.choice(["fan-diamond", "fan-diamond", "fan-cycle", "fan-self"])
+    files = {}
+    top = []
+    sp = lambda: rng.choice([" ", "\t", "  "])
+    if shape == "fan-diamond":
+        files["common"] = rng.choice(["login1\n", "login[1-2]\n# shared\n", "c1\nc2"])
+        own = set(rng.sample(range(k), rng.randrange(0, 4)))
+        for i in range(k):
+            body = ["# rack %d" % i] if rng.random() < 0.3 else []
+            body.append("#include" + sp() + "common")
+            if i in own:
+                body.insert(rng.randrange(0, len(body) + 1), "r%dn[1-2]" % i)
+            files["rack%d" % i] = "\n".join(body) + "\n"
+            top.append("#include" + sp() + "rack%d" % i)
+    elif shape == "fan-cycle":
+        files["cyc_a"] = "a1\n#include cyc_b\n"
+        files["cyc_b"] = "b1\n#include" + sp() + "cyc_a\n"
+        top = ["#include" + sp() + rng.choice(["cyc_a", "cyc_a", "cyc_b"]) for _ in range(k)]
+    else:
+        files["me"] = "m1\n" + "".join("#include me\n" for _ in range(k)) + "m2\n"
+        top = ["#include me"]
+    for _ in range(rng.randrange(0, 3)):
+        top.insert(rng.randrange(0, len(top) + 1), rng.choice(["z1", "tail[8-9]", "# note"]))
+    files["all"] = "\n".join(top) + "\n"
+    fs = {d + "/" + n: (True, ct) for n, ct in files.items()}
+    topcmd = d + "/all"
+    kind = rng.choice(["file", "file", "env", "xfile"])
+    if kind == "file":
+        sources, wargs, env = [("f", topcmd)], ["^" + topcmd], None
+    elif kind == "env":
+        sources, wargs, env = [], [], topcmd
+    else:
+        sources, wargs, env = [("w", "z[1-3]"), ("x", topcmd)], ["z[1-3]", ("x", "^" + topcmd)], None
+    return {"stream": "wide", "shape": shape, "disk": dict(fs), "fs": dict(fs), "sources": sources, "wargs": wargs,
+            "stdin": None, "env": env, "casedir": casedir, "nfiles": len(files), "alt_spelling": False,
+            "nofile": limit, "duplicates": k}
+
+
+def gen_empty_src(rng, casedir):
+    """explicit sources that name NO host (empty file, comments only, an include of an empty file, empty stdin)
+    while WCOLL names a DIFFERENT file that does: a source was given, so WCOLL is not consulted and the list is
+    empty ("no remote hosts specified"); mixed with the same command lines where one source does name a host"""
+    d = rng.choice(["e/", "t/u/"])        # (includes resolve to DIR/NAME: the same strings as the command line's)
+    empties = {"E": rng.choice(["", "\n", "# nothing\n", "  \n#\n", "#include Z\n"]), "Z": rng.choice(["", "# z\n"])}
+    wc = rng.choice(["h1\n", "h[1-2]\n# c\n", "#include V\n"])
+    files = dict(empties)
+    files["W"] = wc
+    files["V"] = "v1\n"
+    fs = {d + n: (True, ct) for n, ct in files.items()}
+    pool = [("f", d + "E"), ("f", d + "Z"), ("s",)]
+    sources = [rng.choice(pool) for _ in range(rng.randrange(1, 4))]
+    if rng.random() < 0.25:
+        sources.insert(rng.randrange(0, len(sources) + 1), ("w", "k1"))
+    if rng.random() < 0.3:
+        sources.append(("x", d + rng.choice(["E", "W"])))
+    stdin = rng.choice(["", "# no host here\n", "\n\n"]) if ("s",) in sources else None
+    env = rng.choice([d + "W", d + "W", d + "W", None])
+    wargs = []
+    for sc in sources:
+        wargs.append("^" + sc[1] if sc[0] == "f" else sc[1] if sc[0] == "w" else "-" if sc[0] == "s" else ("x", "^" + sc[1]))
+    return {"stream": "plain", "shape": "empty-source", "disk": dict(fs), "fs": dict(fs), "sources": sources,
+            "wargs": wargs, "stdin": stdin, "env": env, "casedir": casedir, "nfiles": len(files), "alt_spelling": False}
+
+
 # ------------------------------------------------------------------ running the real pdsh
 def materialise(case):
     d = case["casedir"]
@@ -505,9 +577,18 @@ def run_real(pdsh, case, use_exec=False, attempt=0):
     # defect): lists that may come near it are observed by letting pdsh act on them (-R exec ... echo %n %h: rank and host)
     observe = ["-R", "exec", "-N", "-f", "1"] if use_exec else ["-Q"]
     tail = ["echo", "%n", "%h"] if use_exec else []     # %n = rank of the host in the target list
+    # the resource dimension: the file phase runs under a LOW descriptor limit (the reader holds one stream per
+    # include level and nothing else, so a small multiple of the deepest include chain is plenty); `wide` cases
+    # bring more skipped duplicate includes than the limit.  (exec observation needs pipes per target: no limit)
+    nofile = None if use_exec else case.get("nofile", NOFILE_DEFAULT)
+
+    def lower():
+        if nofile:
+            hard = resource.getrlimit(resource.RLIMIT_NOFILE)[1]
+            resource.setrlimit(resource.RLIMIT_NOFILE, (nofile, hard))
     try:
         p = subprocess.run(SETPRIV + env + [pdsh] + observe + wopts + tail, input=stdin, stdout=subprocess.PIPE,
-                           stderr=subprocess.PIPE, cwd=case["casedir"], timeout=300)
+                           stderr=subprocess.PIPE, cwd=case["casedir"], timeout=300, preexec_fn=lower)
     except subprocess.TimeoutExpired:
         return {"rc": "timeout", "hosts": None, "nwarn": 0, "err": "timeout"}
     err = p.stderr.decode("latin-1")
@@ -535,7 +616,8 @@ def run_real(pdsh, case, use_exec=False, attempt=0):
                 shutil.rmtree(case["casedir"], ignore_errors=True)
                 return run_real(pdsh, case, use_exec=True)
             hosts = last.split(",") if last else []
-    res = {"rc": p.returncode, "hosts": hosts, "err": err[-400:], "via_exec": use_exec,
+    res = {"rc": p.returncode, "hosts": hosts, "err": err[-400:], "via_exec": use_exec, "nofile": nofile,
+           "emfile": "Too many open files" in err,
            "nwarn": err.count("warning:") - err.count("not parsed"),
            "nmulti": err.count("included multiple times"),
            "nohosts": "no remote hosts specified" in err}
@@ -860,12 +942,15 @@ def run(ctx):
                    "./, ../, absolute, and names that merely start with dots (.extraB, ..racksB, .d/listB: hidden "
                    "files/sub-directories, with decoy files of the same name in the current directory); pdsh runs in a "
                    "directory other than the top file's in 3 of 4 cases; comments, blanks, trailing comments, final line with and without newline) x "
-                   "source lists (^file, -w words, `-`/`^-` = stdin, WCOLL, exclusion files as `-x ^F` or `-^F`, comma-joined "
+                   "source lists (^file, -w words, explicit sources that name NO host while WCOLL names a file that does (`empty-source`),  `-`/`^-` = stdin, WCOLL, exclusion files as `-x ^F` or `-^F`, comma-joined "
                    "or separate options, all orders); streams: plain, broken (missing / mode-000 file, run as uid 1000), long (lines around "
                    "1023/2046/2047/2048/4095/6141 and up to 100 KiB made of a few short names placed across the buffer "
                    "boundaries in long runs of blanks/tabs/commas, optional comment tail; every name far below 1023 "
                    "bytes and every list far below the 1024-byte -Q buffer), malformed #include lines and a ':' in the "
-                   "directory of the command-line file (both: model correspondence only); non-trivial = at least two files or a line of 2047+ bytes; distinct = "
+                   "directory of the command-line file (both: model correspondence only); RESOURCES: every -Q run is made under "
+                   "RLIMIT_NOFILE=40, and `wide` cases (K files all including one common file / a cycle entered K times / "
+                   "a file naming itself K times) bring K = limit+4..limit+23 SKIPPED duplicate includes under a limit "
+                   "of 16..128 descriptors — the reader may hold one stream per include level, no more; non-trivial = at least two files or a line of 2047+ bytes; distinct = "
                    "distinct (tree, command line)"}
     repo = ctx.repo_build()
     if repo:
@@ -911,6 +996,11 @@ def run(ctx):
             for i in range(n):
                 stream = rng.choices(["plain", "broken", "long", "malformed", "colon"], [48, 18, 17, 13, 4])[0]
                 cases.append(gen_case(rng, stream, os.path.join(base, "k%d" % i)))
+            for i in range(8 if ctx.quick() else 60):
+                cases.insert(rng.randrange(0, len(cases) + 1),
+                             gen_wide(rng, os.path.join(base, "wide%d" % i), rng.choice([16, 24, 32, 64, 128])))
+            for i in range(24 if ctx.quick() else 300):
+                cases.insert(rng.randrange(0, len(cases) + 1), gen_empty_src(rng, os.path.join(base, "es%d" % i)))
             if not ctx.quick():
                 # every line length around the buffer boundaries x 3 line shapes
                 k = 0
@@ -950,6 +1040,12 @@ def run(ctx):
                     if sp0[0] == "ok" and target_hosts(sp0[1], sp0[3]) is None:
                         dist["exclusion_list_not_compared"] = dist.get("exclusion_list_not_compared", 0) + 1
                 dist["skips"] += r.get("nmulti", 0)
+                dist["max_skips_in_one_run"] = max(dist.get("max_skips_in_one_run", 0), r.get("nmulti", 0))
+                if r.get("nofile"):
+                    dist["run_under_descriptor_limit"] = dist.get("run_under_descriptor_limit", 0) + 1
+                    if r.get("nmulti", 0) > r["nofile"]:
+                        dist["more_skipped_duplicates_than_descriptors"] = \
+                            dist.get("more_skipped_duplicates_than_descriptors", 0) + 1
                 if r["rc"] in (0, 1):
                     for tag in branches_of(c, r):
                         dist["branches"][tag] = dist["branches"].get(tag, 0) + 1
